@@ -17,12 +17,13 @@ def mk_fun(av, scalar=False):
     """list of affine forms -> constant (list / float) or a function of exactly the free variables"""
     forms = av if isinstance(av, list) else [av]
     vs = aff_vars(forms)
+    K = SCALE[0]
     if not vs:
-        vals = [a["c"] / 4.0 for a in forms]
+        vals = [a["c"] / 4.0 * K for a in forms]
         return vals[0] if (scalar or not isinstance(av, list)) else vals
     terms = []
     for a in forms:
-        expr = "%r" % (a["c"] / 4.0)
+        expr = "%r" % (a["c"] / 4.0 * K)
         for n, s in slopes(a).items():
             expr += " + %r*%s" % (float(s), n)
         expr += " + 0.0*%s" % vs[0]          # keep the batch shape for constant components
@@ -47,6 +48,7 @@ def _cat(*xs):
     return torch.cat(cols, dim=-1)
 
 
+SCALE = [1.0]        # build the same expression K times larger (every length and position multiplied by K, parameters too)
 SPLIT = [False]      # build 2-D shapes over the product space x1 * x2 (two one-dimensional variables) instead of x
 
 
@@ -54,6 +56,16 @@ def space_of(v):
     if SPLIT[0] and v == "x":
         return Space({"x1": 1}) * Space({"x2": 1})
     return Space({v: SPACES[v]})
+
+
+def build_scaled(e, k):
+    """the same expression with all lengths and positions multiplied by k; parameter VALUES are to be given multiplied by k too
+    (shape functions are affine with slopes on parameters: c*k + slope * (k*t) = k * (c + slope * t))"""
+    SCALE[0] = float(k)
+    try:
+        return build(e)
+    finally:
+        SCALE[0] = 1.0
 
 
 def build_split(e):
